@@ -4,14 +4,16 @@ CONSTANTS
   N = 3
   Byz <- NoByz
   Nodes <- Obs1
-  Blk0 <- T3
+  Blk0s <- ST3
   MaxBlocks = 9
   MaxRestarts = 1
   ByzMode = "branch"
   ByzRanges <- R123
+  Runs = FALSE
+  BadKinds <- OnlyOk
   Fixes <- AllFixes
 VIEW view
 ACTION_CONSTRAINT GenLog
-INVARIANTS TypeOK LibOnMain ConfirmsOnMain Agreement HonestConfirms
-PROPERTIES LibMonotone Final NoForkBelowLib LibQuorum RestoreEqualsRecompute
+INVARIANTS TypeOK LibOnMain ConfirmsOnMain ProposalsOnMain StatusBestIsBest Agreement HonestConfirms
+PROPERTIES LibMonotone Final NoForkBelowLib LibQuorum RestoreEqualsRecompute AfterAbandonedReorgStatusMatchesMainChain
 CHECK_DEADLOCK FALSE
